@@ -4,7 +4,7 @@ import samplerslice
 PID = "C15"
 TARGET = "Properties/C15.vo"
 NEEDS_MODEL = True
-MODEL_VO = ["Enc.vo", "Disasm.vo", "Builder.vo", "LogParse.vo", "Samplers.vo", "GenTables.vo"]
+MODEL_VO = ["Generator.vo", "Records.vo", "ImageSem.vo", "Enc.vo", "Disasm.vo", "Builder.vo", "LogParse.vo", "Samplers.vo", "GenTables.vo"]
 EXPLANATION = (
     "Theorems over bit-exact binary64 (SpecFloat, axiom-free): truncated normal returns the first in-bounds draw "
     "unchanged (re-draw, never clamp); Poisson/ZTP return the first index whose computed partial sum is not below "
@@ -23,11 +23,105 @@ ASSUMPTIONS = [
 ]
 
 
+def _pic_law_issues(job, r):
+    """PIC case count = min(one ZTP draw, methods still to create); ratio 0 -> no PIC; ratio 1 -> only PICs
+    after the mandatory first leaf.  The ZTP draw of the k-th PIC is the RA event that follows the k-th
+    element-kind choice answering 'pic' in the recorded API-level log; its value is recomputed by the
+    extracted Samplers.generate_ztp (proved to be the exact inverse CDF of that uniform)."""
+    import math
+    import encslice as E
+    from floatfmt import to_triple
+    cfg = job["cfg"]
+    if r["exc"] == "TimeoutError":
+        return ["generation did not finish within the per-job time limit (a sampler or the element loop "
+                "re-draws without bound)"]
+    if r["exc"]:
+        return []
+    out = []
+    els = r["elements"]
+    ratio = cfg["pics_ratio"]
+    if ratio == 0.0 and any(e["kind"] == "P" for e in els):
+        out.append("pics_ratio 0 produced a PIC")
+    if ratio == 1.0 and any(e["kind"] == "M" for e in els[1:]):
+        out.append("pics_ratio 1 produced a plain method after the mandatory first leaf")
+    if els and (els[0]["kind"] != "M" or els[0]["m"]["calls"] != 0 or els[0]["m"]["depth"] != 0):
+        out.append("the first element is not a leaf method")
+    us = []
+    log = r["log"]
+    for i, l in enumerate(log[:-1]):
+        p = l.split()
+        if p[0] == "CS" and p[1] == "2" and p[2] == "1" and p[3].startswith("F:") and p[4:] == ["1"]:
+            q = log[i + 1].split()
+            us.append(float.fromhex(q[1]) if q[0] == "RA" else None)
+    pics = [e for e in els if e["kind"] == "P"]
+    if len(us) != len(pics):
+        out.append(f"{len(pics)} PICs for {len(us)} 'pic' kind choices in the draw log")
+        return out
+    lam = cfg["pics_mean_case_nb"]
+    lines = ["ztp 3000 %d %s %s" % (lam, to_triple(math.exp(-lam)), to_triple(u)) for u in us if u is not None]
+    zs = iter(E.driver("model_driver", lines)) if lines else iter([])
+    count = 0
+    for e in els:
+        if e["kind"] == "M":
+            count += 1
+            continue
+        u = us.pop(0)
+        remaining = cfg["jit_nb_methods"] - count
+        if u is None:
+            out.append("the kind choice 'pic' is not followed by the single uniform draw of the ZTP sampler")
+            break
+        z = next(zs)
+        if z != "NONE" and e["cases"] != min(int(z), remaining):
+            out.append(f"PIC at {e['addr']:#x}: {e['cases']} cases, but ZTP(u={u!r}, mean {lam}) = {z} and "
+                       f"{remaining} methods were still to create: min is {min(int(z), remaining)}")
+        if len(e["ms"]) != e["cases"]:
+            out.append(f"PIC at {e['addr']:#x} declares {e['cases']} cases and holds {len(e['ms'])} methods")
+        count += len(e["ms"])
+    for e in els:
+        for m in ([e["m"]] if e["kind"] == "M" else e["ms"]):
+            if m["calls"] == 0 and m["depth"] != 0:
+                out.append(f"method at {m['addr']:#x} has no call but depth {m['depth']}")
+    if count != cfg["jit_nb_methods"]:
+        out.append(f"{count} methods generated for jit_nb_methods = {cfg['jit_nb_methods']}")
+    return out
+
+
+def gen_law_slice(ctx):
+    import genslice
+
+    class Sub:
+        seed, tier, deep, model_ok = ctx.seed * 1000 + 15, ctx.tier, ctx.deep, ctx.model_ok
+
+        @staticmethod
+        def quick():
+            return ctx.quick()
+    g = genslice.run_gen_slice(Sub, n_cfg=(30 if not ctx.quick() else (12 if ctx.deep else 6)), shapes=(),
+                               label="generator-laws", pic_heavy=True)
+    jobs, results = g.pop("jobs"), g.pop("results")
+    viol = []
+    for job, r in zip(jobs, results):
+        for what in _pic_law_issues(job, r):
+            viol.append({"kind": "generation-law", "job": job, "group": what.split(":")[0][:50],
+                         "what": f"{job['variant']} seed {job['seed']}"
+                                 f"{' policy ' + job['policy']['name'] if job.get('policy') else ''}: {what}"})
+    g["violations"] = viol
+    g["rule"] += " | judged: PIC case count = min(ZTP draw recomputed by the extracted sampler, methods still to " \
+                 "create), ratio 0 / 1 extremes, first element a leaf, depth 0 without calls, method total"
+    return g
+
+
 def slices(ctx):
-    return [samplerslice.run_sampler_slice(ctx)]
+    return [samplerslice.run_sampler_slice(ctx), gen_law_slice(ctx)]
 
 
 def replay(payload):
+    if "job" in payload:
+        import genslice
+        job = payload["job"]
+        r = genslice.impl_gen([job])[0]
+        issues = _pic_law_issues(job, r)
+        return not issues, f"{job['variant']} seed {job['seed']}: " + ("; ".join(issues)[:1500] if issues else
+                                                                          "no violation on this input")
     c = payload["case"]
     r = samplerslice.impl_samplers([c])[0]
     ok = "timeout" not in r and "exc" not in r
